@@ -49,6 +49,8 @@ class Result:
     violations: list = field(default_factory=list)
     nontrivial: bool = False
     classes: tuple = ()
+    count: int = 1              # elementary evaluations inside this case (e.g. operator cells)
+    hist: dict = field(default_factory=dict)   # extra histogram merged into the class counts
 
     def bad(self, sig: str, msg: str):
         self.violations.append(Violation(sig, msg))
@@ -88,6 +90,7 @@ def import_gearpy():
 class Stats:
     def __init__(self):
         self.evaluations = 0
+        self.elementary = 0
         self.nontrivial = set()
         self.classes = {}
         self.samples = []
@@ -97,6 +100,9 @@ class Stats:
 
     def add(self, case, res: Result, keep_samples=3):
         self.evaluations += 1
+        self.elementary += res.count
+        for k, v in res.hist.items():
+            self.classes[k] = self.classes.get(k, 0) + v
         if res.nontrivial:
             h = chash(case)
             if h not in self.nontrivial:
@@ -113,6 +119,7 @@ class Stats:
 
     def merge(self, o: 'Stats'):
         self.evaluations += o.evaluations
+        self.elementary += o.elementary
         self.nontrivial |= o.nontrivial
         for k, v in o.classes.items():
             self.classes[k] = self.classes.get(k, 0) + v
@@ -389,7 +396,8 @@ def main(argv):
             'exhaustive': bool(exhaustive_parts) and len(exhaustive_parts) == len(parts),
             'exhaustive_parts': exhaustive_parts,
             'replays_run': nrep,
-            'parts': {n: {'evaluations': s.evaluations, 'distinct_nontrivial': len(s.nontrivial),
+            'elementary_checks': total.elementary,
+            'parts': {n: {'evaluations': s.evaluations, 'elementary_checks': s.elementary, 'distinct_nontrivial': len(s.nontrivial),
                           'classes': dict(sorted(s.classes.items()))}
                       for n, s in per_part.items()},
             'known_finding_hits_in_search': known_hits,
